@@ -30,6 +30,11 @@
 #include "cmi_memutils.h"
 #include "cmi_process.h"
 #include "cmi_slist.h"
+#include "cmi_verif.h"
+
+#ifdef CIMBA_VERIF
+_Thread_local cmi_verif_sink_func *cmi_verif_sink = NULL;
+#endif
 
 /*
  * sim_time - The simulation clock. It can be initiated to start from a
@@ -208,6 +213,7 @@ static void wakeup_event_event(void *vp, void *arg)
 {
     cmb_assert_debug(vp != NULL);
     struct cmb_process *pp = (struct cmb_process *)vp;
+    CMI_VERIF_EMIT("Wake.event", 0u, pp, NULL, (int64_t)arg, 0.0);
 
     cmb_logger_info(stdout, "Wakes %s signal %" PRIi64, pp->name, (int64_t)arg);
     cmb_assert_debug(!cmi_slist_is_empty(&(pp->awaits)));
@@ -270,6 +276,8 @@ bool cmb_event_execute_next(void)
     const double new_time = event_queue->heap[0].dsortkey;
     cmb_assert_debug(new_time >= sim_time);
     sim_time = new_time;
+    CMI_VERIF_EMIT("Exec", event_queue->heap[0].key, tmp->action, tmp->subject,
+                   event_queue->heap[0].isortkey, new_time);
 
     /* Schedule wakeup events for any processes waiting for this to happen */
     if (!cmi_slist_is_empty(&(tmp->waiters))) {
